@@ -12,7 +12,7 @@ elif git apply --3way "$SRC/patch.diff" 2>/dev/null; then HOW=3way; git reset -q
 else echo "$ID-$MK: PATCH DOES NOT APPLY"; exit 3; fi
 git diff > /tmp/cf-$ID-$MK.diff
 PYTHONPATH=$WT/src /venv/bin/python "$SRC/demo.py" >/dev/null 2>&1; DEMO_WITH=$?
-SUITE=$(/venv/bin/python /tmp/suite.py "$WT" 2>&1 | grep stable_pass)
+SUITE_ALL=$(/venv/bin/python /tmp/suite.py "$WT" 2>&1); echo "$SUITE_ALL" | grep "NOT PASSING" >> /tmp/flaky.log; SUITE=$(echo "$SUITE_ALL" | grep stable_pass)
 git checkout -q -- .
 PYTHONPATH=$WT/src /venv/bin/python "$SRC/demo.py" >/dev/null 2>&1; DEMO_WITHOUT=$?
 NP=$(echo "$SUITE" | sed -n 's/.*stable_not_passing=\([0-9]*\).*/\1/p')
